@@ -137,8 +137,15 @@ async def tri_case(ts, cmd, msgs):
     seq = pkt[1]
     for m in msgs:
         if m == "F":
-            d._outstanding[seq][1].append("fail")
-            d._outstanding[seq][0].set()
+            # the in-flight command is told that the gateway is gone.  Historically an (event, messages) pair per
+            # sequence number; if the library keeps something else there, let the driver do it itself (its own
+            # shutdown path wakes every in-flight command the same way)
+            try:
+                ev_, msgs_ = d._outstanding[seq]
+                msgs_.append("fail")
+                ev_.set()
+            except (TypeError, ValueError, KeyError, AttributeError):
+                d._shutdown_device()
         else:
             ts.deliver(sim.tri_packet(0x12, m[0], m[1:5], seq))
     await sim.settle(4)
